@@ -243,7 +243,7 @@ class Freshness:
                 return env[e.id]
             if e.id in ("self", "cls"):
                 return AV("unknown", why="self")
-            if e.id in self.retained_names(fi):
+            if e.id in self.retained_names(fi) and not getattr(self, "_shape_mode", False):
                 # the object (or a shallow copy of it) is also stored in an attribute:
                 # its arrays are retained, i.e. internal from the caller's point of view
                 return AV("cont", "internal", [AV("arr", "internal", why=f"elements of `{e.id}` are also stored in self.{self.retained_names(fi)[e.id]}")], why=f"`{e.id}` is retained in self.{self.retained_names(fi)[e.id]}")
@@ -405,13 +405,71 @@ class Freshness:
                 return self.internal_shapes[attr]
             if attr == "n_dim":
                 return SCALAR
-            # any other attribute of the state object (caches): retained => internal
-            return AV("cont", "internal", [AV("arr", "internal", why=f"self.{attr}[...]")], why=f"self.{attr} (retained)")
+            # any other attribute of the state object (caches): retained => internal, with the
+            # shape of what the class stores into it (scalars stay scalars)
+            return self._stored_shape(ci, attr)
         # attributes of other classes holding plain configuration
         ts = self.ctx.res.attr_type(ci, attr)
         if self.sc in ts:
             return AV("unknown", why="state object")
         return AV("unknown", why=f"{ci.name}.{attr}")
+
+    def _stored_shape(self, ci: ClassInfo, attr: str) -> AV:
+        cache = getattr(self, "_stored_shapes", None)
+        if cache is None:
+            cache = self._stored_shapes = {}
+        k = (ci.qualname, attr)
+        if k in cache:
+            return cache[k]
+        default = AV("cont", "internal", [AV("arr", "internal", why=f"self.{attr}[...]")], why=f"self.{attr} (retained)")
+        cache[k] = default  # recursion guard
+        from .model import walk_no_nested
+
+        def internalise(v: AV) -> AV:
+            if v.kind == "scalar":
+                return v
+            if v.kind == "arr":
+                return AV("arr", "internal", why=f"stored in self.{attr}")
+            if v.kind == "cont":
+                return AV("cont", "internal", [internalise(x) for x in (v.elems or [])], why=f"stored in self.{attr}")
+            return AV("arr", "internal", why=f"stored in self.{attr} (shape unknown)")
+
+        shapes = []
+        for f in self.ctx.prog.functions.values():
+            if f.cls is not ci:
+                continue
+            flow = flow_of(f.node)
+            for n in walk_no_nested(f.node):
+                if not isinstance(n, ast.Assign) or len(n.targets) != 1:
+                    continue
+                t = n.targets[0]
+                sub = isinstance(t, ast.Subscript)
+                base = t.value if sub else t
+                if not (isinstance(base, ast.Attribute) and isinstance(base.value, ast.Name) and base.value.id == "self" and base.attr == attr):
+                    continue
+                try:
+                    at = flow.node_containing(n)
+                except Exception:
+                    at = None
+                prev = getattr(self, "_shape_mode", False)
+                self._shape_mode = True  # the value itself, not "it is retained" (that is what is being computed)
+                try:
+                    v = self.eval(f, n.value, at, {}, 1)
+                finally:
+                    self._shape_mode = prev
+                if v.kind == "scalar" and not sub:
+                    continue  # reset to None / empty
+                if isinstance(n.value, ast.Call) and dotted(n.value.func) in ("dict", "list") and not n.value.args:
+                    continue
+                v = internalise(v)
+                shapes.append(AV("cont", "internal", [v], why=f"self.{attr}") if sub else v)
+        if not shapes:
+            return default
+        out = shapes[0]
+        for sh in shapes[1:]:
+            out = join([out, sh]) if "join" in globals() else default
+        cache[k] = out
+        return out
 
     def _call(self, fi: FuncInfo, e: ast.Call, at, env, depth) -> AV:
         ev = lambda x: self.eval(fi, x, at, env, depth + 1)  # noqa: E731
